@@ -727,8 +727,11 @@ func c02Labels(c *Ctx, p *Prog) {
 		if start == nil {
 			continue
 		}
-		// only the loop that builds the input list
+		// only the loop that builds the input list (directly, or through a helper that returns one input)
 		builds := false
+		returnsInput := func(f *ssa.Function) bool {
+			return f != nil && f.Blocks != nil && f.Pkg == fn.Pkg && f.Signature.Results().Len() == 1 && recvName(f.Signature.Results().At(0).Type()) == "input" && len(naturalLoops(f)) == 0 && len(f.Blocks) <= 16
+		}
 		for b := range lp.Blocks {
 			for _, in := range b.Instrs {
 				if st, ok := in.(*ssa.Store); ok {
@@ -736,13 +739,16 @@ func c02Labels(c *Ctx, p *Prog) {
 						builds = true
 					}
 				}
+				if call, ok := in.(*ssa.Call); ok && returnsInput(call.Call.StaticCallee()) {
+					builds = true
+				}
 			}
 		}
 		if !builds {
 			continue
 		}
 		mk := func() *e6Interp {
-			return &e6Interp{PureCall: func(f *types.Func) bool { return true }}
+			return &e6Interp{PureCall: func(f *types.Func) bool { return true }, Inline: returnsInput}
 		}
 		outs, why := e6Enumerate(mk, start, lp.Header, iterStop(lp, start), 64)
 		if why != "" {
